@@ -79,8 +79,8 @@ def groups(tier, seed):
         add('irregular', Classes={'Irregular'}, MaxL=3, MaxN=6, Queries=ALLQ, DxCap=2, MultiMod=61, IrrMod=101, PermMults=set())
         add('helical', Classes={'Helical'}, MaxN=12, Queries=ALLQ, MultiMod=61)
         # enlarge_mps_unit_cell / with_grouped_sites applied to built lattices of every class, all queries again
-        add('derive', Classes={'Chain', 'Ladder', 'Square', 'Honeycomb', 'Multi', 'Irregular', 'Helical'}, MaxL=3, MaxN=8,
-            BcMode='periodic', BcMpsSet=FMT, Queries=ALLQ - {'neighbors'}, DxCap=2, MultiMod=101, IrrMod=23, PermMults=set(),
+        add('derive', Classes={'Chain', 'Ladder', 'Square', 'Honeycomb', 'Multi', 'Irregular', 'Helical'}, MaxL=3, MaxN=6,
+            BcMode='periodic', Queries=ALLQ - {'neighbors'}, DxCap=1, MultiMod=401, IrrMod=61, PermMults=set(),
             EnlargeSet={2}, GroupSet={2, 3})
     else:
         add('orders-1d', Classes=REG1D, MaxL=6, NLegs={3, 4}, MaxN=24, BcMode='periodic', OrderMode='all', PermMults=pm2,
@@ -206,6 +206,14 @@ class Replayer:
                 got = np.asarray(lat.ordering(hl.order_arg(cfg['ord'])))
             except Exception as e:
                 return self.fail(st, 'build', 'ordering-exception', repr(e), 'order', exc=type(e).__name__)
+            # asking for an order must not change the lattice
+            try:
+                back = np.asarray(lat.lat2mps_idx(np.asarray(lat.order)))
+            except Exception as e:
+                back = np.array([repr(e)])
+            if not np.array_equal(back, np.arange(lat.N_sites)):
+                self.fail(st, 'build', 'ordering-side-effect', back.tolist(), list(range(lat.N_sites)))
+                lat.order = lat.order  # the setter recomputes the index maps; go on with the other comparisons
             want = np.array(reorder, dtype=np.intp)
             if got.shape != want.shape or not np.array_equal(got, want):
                 return self.fail(st, 'build', 'ordering', got.tolist(), want.tolist(), ordname=cfg['ord'].get('name', ''))
